@@ -233,7 +233,7 @@ func HarnessC08Stateless() {
 	r2 := outcomeOfResult(v.Validate(d2))
 	r1b := outcomeOfResult(v.Validate(d1))
 	if verifTier() > 0 { // thorough: a third value, then the second again
-		d3 := []interface{}{"a", 3.0, map[string]interface{}{}}[verifChoose(3)]
+		d3 := []interface{}{"a", 3.0}[verifChoose(2)]
 		r3 := outcomeOfResult(v.Validate(d3))
 		verifAssert(sameOutcome(r3, runFresh(s, d3, reg)), "third-use-equals-fresh")
 		verifAssert(sameOutcome(outcomeOfResult(v.Validate(d2)), r2), "repeat-of-second-equals-second")
